@@ -42,7 +42,8 @@ import (
 const (
 	_binaryChunkSize      = 4096
 	_binaryFinalChunk     = byte('B')  // final chunk
-	_binaryChunk          = byte('b')  // non-final chunk
+	_binaryChunk          = byte('A')  // non-final chunk (x41)
+	_binaryChunkLegacy    = byte('b')  // non-final chunk as written by older versions; on the wire x62 is 'object, class #2'
 	_binaryShortLenTagMin = byte(0x20) // 1-byte length binary min
 	_binaryShortLenTagMax = byte(0x2f) // 1-byte length binary max
 	_binaryShortTagMaxLen = int(_binaryShortLenTagMax - _binaryShortLenTagMin)
@@ -129,6 +130,10 @@ func decodeBinaryValue(reader ByteRuneReader, flag int32) ([]byte, error) {
 				break
 			}
 			return nil, err
+		}
+		if tag == _binaryChunkLegacy {
+			// only here, after a non-final chunk, can x62 be told from an object of class #2
+			tag = _binaryChunk
 		}
 		if !binaryTag(tag) {
 			return nil, fmt.Errorf("error binary tag: 0x%x", tag)
